@@ -13,20 +13,44 @@ SPEC = dict(
                 "on the representation, is_bot iff least, is_top iff greatest, bottoms are unique and is_bot respects ==, default is "
                 "bottom. The cross-representation code paths (SetUnion length-first comparison, MapUnion chaining both non-bottom key "
                 "sets with early exits, VecUnion length flags, the derive macro's field loop) are modelled as written. Tie: cmp / eq / "
-                "trans / isbot / istop / default on ~100 concrete Rust types + cross-representation and compare-only pairs "
+                "trans / isbot / istop / default on ~150 concrete Rust types + cross-representation and compare-only pairs "
                 "(VecSet/ArraySet/OptionSet/SingletonSet, VecMap/ArrayMap/...) diffed with the compiled model; oracle on the real "
                 "code: partial_cmp == naive_cmp, == <=> Equal, duality, transitivity, <= <=> merge no-op, is_bot/is_top against an "
                 "independent specification and against a pool of values, default is bottom. "
                 "F1 (WithTop::is_top true for Some(top)) was reproduced by this check, fixed in /repo and the model follows the fix. "
-                "F11 (known): is_top is false on one-point instantiations WithBot<()> / MapUnion<_,()> - outside the theorems' domain, "
-                "witness proved as degenerate_isTop_refuted. PARTIAL: Point's "
+                "Domain ok3 = every nesting in which no MapUnion value type / WithBot inner type is a ONE-POINT lattice (all of whose values are bottom: (), "
+                "Pair/derive structs/DomPair/MapUnion/WithBot of such); everything else shipped is inside, DomPair needs a totally ordered key "
+                "(for a partially ordered key DomPair is not a lattice, C01 domPair_not_assoc_witness; two such types are kept correspondence-only). "
+                "F11 (known, genuine w.r.t. the clause `is_top exactly for a greatest element` and IsTop's own doc `any element equal to top is top`): "
+                "WithBot<()>::new(None) == Some(()) and Some(()).is_top() but None.is_top() == false; MapUnion<_,()>::is_top() is constantly false "
+                "although all its values are equal. Only one-point instantiations are affected (no information can be stored in them) and a repair "
+                "needs an extra trait bound (Default or a type-level `is trivial`), so it is recorded, not patched; witness proved as "
+                "degenerate_isTop_refuted, oracle signature c03-istop-degenerate. "
+                "Translation: the match-arm tables of WithBot/WithTop (merge, partial_cmp, eq; lattice_from/is_bot/is_top bodies), Conflict (partial_cmp, eq) and the IsTop/IsBot/Default impls of Max/Min in ord.rs (incl. the list of types impls_numeric! is instantiated with) are re-extracted from lattices/src on every run into Gen/Tables.lean as Lean functions; gen_* theorems prove them equal to the hand-written model, so a changed/added/reordered arm breaks the check even without a failing input. "
+                "PARTIAL: Point's "
                 "panicking partial_cmp is modelled and diffed only; union-find/tombstones are C04/C05."),
     level_note=("Trusted as C01. is_top-iff-greatest for SetUnion/MapUnion/VecUnion uses that the element/key type is unbounded in the "
-                "model (u32 in the harness); a set over a finite element type (e.g. bool) has a greatest element the code does not report."),
+                "model (u32 in the harness); a set/map over a finite element/key type (e.g. SetUnion<HashSet<bool>>) has a greatest element for which is_top() is false - the crate's "
+                "is_top for collections is a constant false; not instantiated by the harness (same family as F11, not recorded separately)."),
     trusted_base=["std containers modelled as lists; element and key types modelled as unbounded naturals"],
     assumptions=["set/map backings hold no duplicate keys", "MapUnion/WithBot value lattices have a non-bottom value (ok3)",
                  "element/key types are effectively unbounded"],
 )
+
+
+# Translation (T): the match-arm tables of WithBot/WithTop (merge, partial_cmp, eq, lattice_from, is_bot, is_top),
+# Conflict (partial_cmp, eq) and the IsTop/IsBot/Default table of ord.rs are re-extracted from lattices/src on
+# every run into lean/HvLat/HvLat/Gen/Tables.lean; the `gen_*` theorems prove them equal to the model.
+def _translate(ctx):
+    import importlib.util, os
+    p = os.path.join(ctx["verif"], "lean", "HvLat", "translate_tables.py")
+    sp = importlib.util.spec_from_file_location("hvlat_translate_tables", p)
+    mod = importlib.util.module_from_spec(sp)
+    sp.loader.exec_module(mod)
+    return mod.translate(ctx)
+
+
+SPEC["translate"] = _translate
 
 
 # The tombstone lattices (set_union_with_tombstones / map_union_with_tombstones) are lattices of the same
